@@ -1577,7 +1577,7 @@ TIERS = {
     # throw_every / throw_k / throw_runs: every n-th program is also resumed with throw(E1) at each
     # of its first throw_k suspensions, exploring up to throw_runs branch vectors each.
     "quick": dict(special_stride=12, matrix_stride=53, enum={2: 1, 3: 12}, random=26, max_nodes=(6, 12), max_runs=24,
-                  throw_every=3, throw_k=8, throw_runs=6, running_stride=4, deadline=36.0),
+                  throw_every=3, throw_k=8, throw_runs=6, running_stride=5, deadline=36.0),
     "thorough": dict(matrix_stride=3, enum={2: 1, 3: 1, 4: 8}, random=300, max_nodes=(5, 14), max_runs=48,
                      throw_every=2, throw_k=6, throw_runs=6, running_stride=4, deadline=440.0),
     "tiny": dict(special_stride=60, matrix_stride=211, enum={2: 4}, random=4, max_nodes=(5, 8), max_runs=8,
